@@ -142,6 +142,29 @@ class Run:
         return sum(1 for c, n, d in self.choices if d is not None and c != d)
 
 
+def discover(func, target_file):
+    """Runs `func` once in this thread and returns the qualified names of every function of the target file(s) that it
+    entered - the call graph as it is today, whatever the helpers are called."""
+    files = target_file if isinstance(target_file, (tuple, list, set)) else (target_file,)
+    found = set()
+
+    def glob(frame, event, arg):
+        if frame.f_code.co_filename in files:
+            found.add(frame.f_code.co_qualname)
+        return None
+
+    old = sys.gettrace()
+    sys.settrace(glob)
+    try:
+        try:
+            func()
+        except Exception:
+            pass
+    finally:
+        sys.settrace(old)
+    return found
+
+
 def explore(make_funcs, traced, target_file, check, max_preempt=None, limit=100000, deadline=None):
     """Depth-first enumeration of schedules, complete within the preemption bound.
     make_funcs(trial) -> list of thunks using a key never built before; check(run, trial) is
